@@ -420,7 +420,7 @@ def run(ctx):
     ctx.build(ctx.pid, deps=["Model/Greedy.v"])
     ensure_model(ctx)
     quick = ctx.tier == "quick"
-    n = 1300 if quick else 16000
+    n = 1300 if quick else 12000
     cases = []
     while len(cases) < n:
         c = gen_case(ctx.rng)
@@ -482,7 +482,7 @@ def run(ctx):
         "schedule() vs the policy model over the shared worker model: decisions and final virtual availability.")
     if getattr(ctx, "greedy_model_ok", True):
         idc = []
-        while len(idc) < (500 if quick else 5000):
+        while len(idc) < (500 if quick else 3000):
             c = gen_case_ids(ctx.rng)
             if not f10_signature(c):
                 idc.append(c)
@@ -526,7 +526,7 @@ def run(ctx):
         "every unplaced task fits no pool for any strategy once the placed tasks whose DOCUMENTED key is <= its own are "
         "accounted for (placements on single-worker pools commute).")
     extra = []
-    while len(extra) < (700 if quick else 8000):
+    while len(extra) < (700 if quick else 5000):
         c = gen_case(ctx.rng, single=True)
         if not f10_signature(c):
             extra.append(c)
